@@ -558,10 +558,17 @@ def case_hash(obj):
 
 
 def load_findings():
+    out = []
     path = os.path.join(VERIF, "known_findings.json")
-    if not os.path.exists(path):
-        return []
-    return json.load(open(path)).get("findings", [])
+    if os.path.exists(path):
+        out.extend(json.load(open(path)).get("findings", []))
+    d = os.path.join(VERIF, "known_findings.d")
+    if os.path.isdir(d):
+        for f in sorted(os.listdir(d)):
+            if f.endswith(".json"):
+                x = json.load(open(os.path.join(d, f)))
+                out.extend(x if isinstance(x, list) else x.get("findings", [x]))
+    return out
 
 
 class Report:
@@ -724,7 +731,7 @@ def _match_finding(f, ctx):
 def obligations_gate(report, prop_id):
     """Build + compile the property's obligations.  A failure is recorded as a violation
     without failing input (the caller still runs the search for one)."""
-    ok, log, treport = ensure_built()
+    ok, log, treport = ensure_built(only=["Props/%s.vo" % prop_id])
     report.cov["translator"] = treport
     if not ok:
         report.violation(
